@@ -32,11 +32,15 @@ type c41Kind struct {
 	v     int // 4, 6, 0 = invalid
 	size  int
 	inval string // which defect for invalid packets
+	gen   *c41Gen // generated invalid packet (c41_lenfield_test.go); v == 0
 }
 
 // c41Mk builds the bytes of packet kind k with identity id (1..255). Bytes at equal offsets differ between
 // packets with different ids, so a splice of two packets is never byte-identical to a sent packet.
 func c41Mk(k c41Kind, id int) []byte {
+	if k.gen != nil {
+		return c41MkGen(*k.gen, id)
+	}
 	fill := func(b []byte, from int) {
 		for i := from; i < len(b); i++ {
 			b[i] = byte(31*id + 7*i + 13*(i>>8) + 1)
@@ -100,6 +104,18 @@ func c41Mk(k c41Kind, id int) []byte {
 		b := v6(60)
 		binary.BigEndian.PutUint16(b[4:], 19)
 		return b
+	case "v6-length-field-zero-with-payload":
+		b := v6(60)
+		binary.BigEndian.PutUint16(b[4:], 0)
+		return b
+	case "v4-length-field-zero":
+		b := v4(60)
+		binary.BigEndian.PutUint16(b[2:], 0)
+		return b
+	case "v4-length-field-below-header-length":
+		b := v4(60)
+		binary.BigEndian.PutUint16(b[2:], 19)
+		return b
 	}
 	panic("c41: unknown kind " + k.name)
 }
@@ -144,7 +160,8 @@ func c41Kinds(f int) (all, reduced, tiny []c41Kind) {
 	}
 	add(4, big)
 	for _, iv := range []string{"empty", "version5", "v4-shorter-than-header", "v4-length-field-too-small",
-		"v4-length-field-too-big", "v6-shorter-than-header", "v6-length-field-too-big", "v6-length-field-too-small"} {
+		"v4-length-field-too-big", "v6-shorter-than-header", "v6-length-field-too-big", "v6-length-field-too-small",
+		"v6-length-field-zero-with-payload", "v4-length-field-zero", "v4-length-field-below-header-length"} {
 		all = append(all, c41Kind{name: "invalid/" + iv, inval: iv})
 	}
 	pick := func(names ...string) (out []c41Kind) {
@@ -158,7 +175,7 @@ func c41Kinds(f int) (all, reduced, tiny []c41Kind) {
 		return
 	}
 	reduced = pick("v4/20", fmt.Sprintf("v4/%d", P+1), fmt.Sprintf("v4/%d", 2*f), "v6/40", fmt.Sprintf("v6/%d", P),
-		fmt.Sprintf("v4/%d", big), "invalid/version5", "invalid/v4-length-field-too-small")
+		fmt.Sprintf("v4/%d", big), "invalid/version5", "invalid/v4-length-field-too-small", "invalid/v6-length-field-zero-with-payload")
 	tiny = pick(fmt.Sprintf("v4/%d", P+1), fmt.Sprintf("v6/%d", 2*f), "v4/21", "invalid/v4-length-field-too-big")
 	return
 }
@@ -229,6 +246,7 @@ type c41Env struct {
 	streamFaultDeliveries                                    atomic.Int64
 	closeEarlyExact                                          atomic.Int64
 	panics                                                   atomic.Int64
+	invalidKinds, sandwichCases                              atomic.Int64
 	abort                                                    atomic.Bool
 }
 
@@ -620,11 +638,16 @@ func TestC41(t *testing.T) {
 		[]plan{{1, 0, 2}, {2, 0, 1}, {3, 1, 1}},
 		[]plan{{1, 0, 2}, {2, 0, 2}, {3, 0, 1}, {4, 1, 1}, {5, 2, 1}})
 	r.Rule = fmt.Sprintf("frame sizes %v x packet sequences (plans %v = {length, alphabet 0:all sizes {20,21,39,40,41,P-1,P,P+1,2P,2f,3P+5,"+
-		"10P+3|9000} v4/v6 + 8 invalid kinds; 1: 8 kinds; 2: 4 kinds, fault bound}) x every composition of the sequence into write "+
+		"10P+3|9000} v4/v6 + 11 invalid kinds; 1: 9 kinds; 2: 4 kinds, fault bound}) x every composition of the sequence into write "+
 		"bursts (and, in order only, with the encoder closed before the last burst is drained) x delivery: in order, and every 1 (bound 2: every 2, for <=10 frames) of {loss, duplicate, late duplicate, adjacent "+
 		"swap} at every frame position; P = frame size - 16; plus two streams on one session: stream id pairs differing in each single bit of the "+
 		"20-bit field (2, thorough 4, base ids) and 4 multi-bit pairs x every order-preserving interleaving of the two frame lists, in order "+
-		"and with one fault (thorough partly two) at every position; a case = (frame size, sequence, bursts) or (frame size, stream pair); non-trivial = at least one "+
+		"and with one fault (thorough partly two) at every position; plus the invalid-packet enumeration: every generated invalid packet "+
+		"(v4/v6 layouts of real length {hdr,hdr+1,60,100,P+1,2f} x length field {0,1,below header,real-1,real+1,real-20,real+20,real+P,65535,...}, "+
+		"real length below the fixed header, every version nibble other than 4/6 and the crossed ones, payloads that are runs of complete inner packets with the "+
+		"length field at/before/behind an inner boundary) alone and between valid neighbours {none,v4/20,v6/40,v4/P+1,v6/2f (thorough +3)} on either side "+
+		"(thorough: also followed by a second invalid packet of 6 classes, neighbours {none,v4/20,v6/2f}) x every burst composition, in order, closed early and "+
+		"with one fault at every position; a case = (frame size, sequence, bursts) or (frame size, stream pair); non-trivial = at least one "+
 		"valid packet", frameSizes, plans)
 
 	// the small experiments first, so that a budget cap in the main enumeration never skips them
@@ -632,6 +655,12 @@ func TestC41(t *testing.T) {
 	c41Streams(e)
 
 	var stop atomic.Bool
+	// every generated invalid packet (length field disagreeing with the real length in every way, wrong version
+	// nibble, shorter than the header) alone and between valid neighbours
+	c41Sandwich(e, frameSizes, &stop)
+	if stop.Load() {
+		r.Capped("budget exhausted in the invalid-packet (sandwich) enumeration")
+	}
 	var capNote string
 	var capMu sync.Mutex
 	for _, f := range frameSizes {
@@ -672,7 +701,7 @@ func TestC41(t *testing.T) {
 			})
 		}
 	}
-	if stop.Load() {
+	if stop.Load() && capNote != "" {
 		r.Capped(capNote)
 	}
 	if e.abort.Load() {
@@ -690,6 +719,8 @@ func TestC41(t *testing.T) {
 	r.Extra["fault_deliveries_all_packets_still_delivered"] = e.faultDelivered.Load()
 	r.Extra["fault_deliveries_some_packet_lost"] = e.faultLost.Load()
 	r.Extra["fault_deliveries_with_packet_emitted_twice"] = e.faultDupEmitted.Load()
+	r.Extra["generated_invalid_packet_kinds_per_frame_size"] = e.invalidKinds.Load()
+	r.Extra["invalid_packet_sandwich_cases"] = e.sandwichCases.Load()
 	r.Extra["two_stream_interleavings"] = e.streamsChecked.Load()
 	r.Extra["two_stream_fault_deliveries"] = e.streamFaultDeliveries.Load()
 	for name, n := range map[string]int64{"inorder-exact-sequence": e.outExact.Load(), "invalid-packet-not-encapsulated": e.outInvalidSkipped.Load(),
